@@ -144,6 +144,16 @@ Theorem from_timestamp_injective :
     (s1 + n1 / 1000000000 = s2 + n2 / 1000000000 /\ n1 mod 1000000000 = n2 mod 1000000000).
 Proof. exact from_timestamp_injective_lemma. Qed.
 
+(* The guard of add_sub_inverse (d is not the minimum int64) is needed: for that
+   single duration (-292.47 years, outside the quantified +-292 years) Go's -d
+   wraps and `t - d` is evaluated as `t + d`.  Stated so that the exclusion in
+   val_in_range is visible, not silently assumed. *)
+Theorem sub_min_duration_wraps :
+  forall t z,
+    dispatch MINUS (VTime t z) (VDur min_int64) = OTime (t + min_int64) z /\
+    dispatch MINUS (VTime t z) (VDur min_int64) <> spec MINUS (VTime t z) (VDur min_int64).
+Proof. exact sub_min_duration_lemma. Qed.
+
 Example comparison_premises_hold :
   same_kind (VTime 5 1) (VTime 5 2) = true /\ compare LE (VTime 5 1) (VTime 5 2) = OBool true /\
   involves_time (VDur 1) (VInt 1) = true /\ same_kind (VDur 1) (VInt 1) = false /\
